@@ -60,8 +60,13 @@ def start_tables():
                                 copy.deepcopy(smd), type='OTU table'),
                   M(O, C, D, omd, smd, 'OTU table'))
     D2 = [[0, 5], [6, 7], [-1, 1]]
-    S['csc3x2'] = (lambda: Table(sp.csc_matrix(np.array(D2, float)), ['a', 'b', 'c'], ['y', 'x']),
-                   M(['a', 'b', 'c'], ['y', 'x'], D2))
+    def csc3x2():
+        # the constructor stores every input row-compressed; an in-place per-sample transform (here the identity)
+        # leaves the table column-compressed
+        t = Table(sp.csc_matrix(np.array(D2, float)), ['a', 'b', 'c'], ['y', 'x'])
+        t.transform(lambda v, i, md: v, axis='sample', inplace=True)
+        return t
+    S['csc3x2'] = (csc3x2, M(['a', 'b', 'c'], ['y', 'x'], D2))
 
     def stored0():
         mat = sp.csr_matrix((np.array([2.0, 0.0, 3.0]), np.array([0, 1, 1]),
@@ -197,7 +202,8 @@ def unary_ops(subsample=True):
         L.append(('pa', inpl))
         L.append(('remove_empty', 'whole', inpl))
     L += [('transpose',), ('copy',), ('head', 2, 2), ('head', 1, 1), ('nnz',), ('col',), ('row',),
-          ('iter',), ('eq',), ('del_md_whole',), ('poke_zero',), ('iter_interleaved',), ('twin',)]
+          ('iter',), ('eq',), ('del_md_whole',), ('poke_zero',), ('iter_interleaved',), ('twin',),
+          ('export', 'json'), ('export', 'tsv'), ('export', 'hdf5')]
     return L
 
 
@@ -445,6 +451,24 @@ def apply(op, t, m, strict=True):
         # two live iterators over different axes, advanced in lock-step
         for _ in zip(t.iter(axis='observation'), t.iter(axis='sample')):
             pass
+        return Res(t, m, True)
+    if n == 'export':
+        # writing the table out is a read: whatever an exporter remembers must not outlive a later change
+        try:
+            if op[1] == 'json':
+                t.to_json('verif')
+            elif op[1] == 'tsv':
+                t.to_tsv()
+            else:
+                import h5py
+                fh = h5py.File('ops-export-%d-%d.h5' % (os.getpid(), id(t)), 'w', driver='core', backing_store=False)
+                try:
+                    t.to_hdf5(fh, 'verif')
+                finally:
+                    fh.close()
+        except Exception:
+            if strict:
+                raise Refuse()      # what can be exported is the business of C01-C04
         return Res(t, m, True)
     if n == 'eq':
         t == t.copy()
